@@ -135,6 +135,15 @@ fn run_one(bytes: &[u8], target: usize, es: &[Entry], cfg: &Cfg) -> (u8, String)
                 let t: candid::types::Type = candid::types::TypeInner::Opt(candid::types::TypeInner::Vec(candid::types::TypeInner::Nat8.into()).into()).into();
                 candid::IDLArgs::from_bytes_with_types_with_config(bytes, &candid::TypeEnv::new(), &[t], &dc).map(|_| ())
             }
+            4 | 5 => {
+                // skip one argument and decode the other (both may be deep): T = opt T
+                let mut env = candid::TypeEnv::new();
+                let t: candid::types::Type = candid::types::TypeInner::Var("T".into()).into();
+                env.0.insert("T".into(), candid::types::TypeInner::Opt(t.clone()).into());
+                let r: candid::types::Type = candid::types::TypeInner::Reserved.into();
+                let tys = if k == 4 { vec![r, t] } else { vec![t, r] };
+                candid::IDLArgs::from_bytes_with_types_with_config(bytes, &env, &tys, &dc).map(|_| ())
+            }
             _ => {
                 // a recursive expected type
                 let mut env = candid::TypeEnv::new();
@@ -157,13 +166,21 @@ fn run_one(bytes: &[u8], target: usize, es: &[Entry], cfg: &Cfg) -> (u8, String)
         }
     }
 }
-const UNTYPED_TARGETS: usize = 4;
+const UNTYPED_TARGETS: usize = 6;
 
 fn target_name(t: usize, es: &[Entry]) -> String {
     if t < es.len() {
         format!("Decode!(_, {})", es[t].name)
     } else {
-        ["IDLArgs::from_bytes", "from_bytes_with_types (reserved)", "from_bytes_with_types (opt vec nat8)", "from_bytes_with_types (rec list)"][t - es.len()].to_string()
+        [
+            "IDLArgs::from_bytes",
+            "from_bytes_with_types (reserved)",
+            "from_bytes_with_types (opt vec nat8)",
+            "from_bytes_with_types (rec list)",
+            "from_bytes_with_types (reserved, T) with T = opt T",
+            "from_bytes_with_types (T, reserved) with T = opt T",
+        ][t - es.len()]
+            .to_string()
     }
 }
 
@@ -200,8 +217,97 @@ fn counts() -> Vec<Vec<u8>> {
     v
 }
 
+/// Messages with type table `T = opt T` and two or three arguments of type T nested d1, d2 (, d3) deep. One
+/// recursion-depth tracker and one stack serve the whole message, and the targets consume the arguments in
+/// different ways (decode / skip as surplus / read at reserved), with different stack needs per level. Depths
+/// sweep densely through the region where each stack class runs out (the guard must fire for every value on
+/// its own account, whatever was consumed before).
+fn two_deep_messages(tier: Tier) -> Vec<(String, Vec<u8>)> {
+    let mut out = vec![];
+    let val = |d: usize| {
+        let mut v = vec![0x01u8; d];
+        v.push(0x00);
+        v
+    };
+    let mut d1s: Vec<usize> = vec![];
+    let (s1, s2, s3) = if tier == Tier::Quick { (2, 6, 40) } else { (1, 2, 10) };
+    d1s.extend((20..=140).step_by(s1));
+    d1s.extend((150..=600).step_by(s2));
+    d1s.extend((1200..=4200).step_by(s3));
+    for d1 in d1s {
+        for delta in [0usize, 1, 2, 4, 8, 16, 32] {
+            if delta >= d1 {
+                continue;
+            }
+            let d2 = d1 - delta;
+            out.push((format!("two-deep d1={d1} d2={d2}"), didl(&[&[0x01, 0x6e, 0x00, 0x02, 0x00, 0x00][..], &val(d1)[..], &val(d2)[..]].concat())));
+            if delta == 2 {
+                out.push((format!("two-deep d1={d2} d2={d1}"), didl(&[&[0x01, 0x6e, 0x00, 0x02, 0x00, 0x00][..], &val(d2)[..], &val(d1)[..]].concat())));
+                out.push((format!("three-deep d={d1},{d2},{d2}"), didl(&[&[0x01, 0x6e, 0x00, 0x03, 0x00, 0x00, 0x00][..], &val(d1)[..], &val(d2)[..], &val(d2)[..]].concat())));
+            }
+        }
+    }
+    out
+}
+
+/// names for wire positions that carry a string which error messages may quote or cut: every "round" byte offset
+/// with a 2-, 3- and 4-byte character straddling it at every alignment
+fn straddling_names() -> Vec<Vec<u8>> {
+    let mut out: Vec<Vec<u8>> = vec![];
+    for b in [8usize, 10, 16, 20, 24, 30, 32, 40, 48, 50, 60, 64, 80, 100, 120, 128, 200, 250, 255, 256, 500, 512, 1000, 1024] {
+        for ch in ["\u{e9}", "\u{672c}", "\u{1F600}"] {
+            for k in 1..ch.len() {
+                if k > b {
+                    continue;
+                }
+                let mut s = "a".repeat(b - k);
+                s.push_str(ch);
+                s.push_str("bc");
+                out.push(s.into_bytes());
+            }
+        }
+    }
+    out
+}
+
 fn hostile_messages(tier: Tier) -> Vec<(String, Vec<u8>)> {
     let mut out: Vec<(String, Vec<u8>)> = vec![];
+    // strings supplied by the wire that diagnostics quote: method names in service types (valid, typed by a
+    // non-function, duplicated, unsorted), method names of function values, text values (also cut short in the
+    // middle of a character)
+    for (ni, name) in straddling_names().into_iter().enumerate() {
+        let l = leb::enc_u64(name.len() as u64);
+        let func = [0x6au8, 0x00, 0x00, 0x00]; // entry 0: func () -> ()
+        let svc = |methods: &[(&[u8], u8)]| {
+            let mut t = vec![0x02u8];
+            t.extend(func);
+            t.push(0x69);
+            t.extend(leb::enc_u64(methods.len() as u64));
+            for (n, ty) in methods {
+                t.extend(leb::enc_u64(n.len() as u64));
+                t.extend(*n);
+                t.push(*ty);
+            }
+            t.extend([0x01, 0x01, 0x01, 0x00]); // one argument of type entry 1: a service reference with empty principal
+            didl(&t)
+        };
+        let mut longer = name.clone();
+        longer.push(b'z');
+        out.push((format!("service-method-name#{ni} valid len={}", name.len()), svc(&[(&name, 0x00)])));
+        out.push((format!("service-method-name#{ni} non-func-prim len={}", name.len()), svc(&[(&name, 0x7d)])));
+        out.push((format!("service-method-name#{ni} non-func-entry len={}", name.len()), svc(&[(&name, 0x01)])));
+        out.push((format!("service-method-name#{ni} duplicate len={}", name.len()), svc(&[(&name, 0x00), (&name, 0x00)])));
+        out.push((format!("service-method-name#{ni} unsorted len={}", name.len()), svc(&[(&longer, 0x00), (&name, 0x00)])));
+        // function value: principal (empty) + method name
+        out.push((format!("func-method-name#{ni} len={}", name.len()), didl(&[&[0x01, 0x6a, 0x00, 0x00, 0x00, 0x01, 0x00, 0x01, 0x01, 0x00][..], &l[..], &name[..]].concat())));
+        out.push((format!("text-value#{ni} len={}", name.len()), didl(&[&[0x00, 0x01, 0x71][..], &l[..], &name[..]].concat())));
+        // the same bytes cut inside the multi-byte character (invalid UTF-8 at the very end)
+        let cut = &name[..name.len() - 3];
+        let lc = leb::enc_u64(cut.len() as u64);
+        out.push((format!("text-value#{ni} cut-inside-char len={}", cut.len()), didl(&[&[0x00, 0x01, 0x71][..], &lc[..], cut].concat())));
+        out.push((format!("func-method-name#{ni} cut-inside-char len={}", cut.len()), didl(&[&[0x01, 0x6a, 0x00, 0x00, 0x00, 0x01, 0x00, 0x01, 0x01, 0x00][..], &lc[..], cut].concat())));
+        out.push((format!("service-method-name#{ni} cut-inside-char non-func len={}", cut.len()), svc(&[(cut, 0x7d)])));
+    }
     for c in counts() {
         let tag = hex(&c);
         // table length, arg count
@@ -349,6 +455,8 @@ enum Family {
     Alphabet(usize),
     Mutants,
     Hostile,
+    /// two (or three) deep values of type T = opt T in one message, consumed in different ways
+    TwoDeep,
 }
 
 fn family_size(f: Family, ctxd: &FamilyData) -> u64 {
@@ -357,12 +465,14 @@ fn family_size(f: Family, ctxd: &FamilyData) -> u64 {
         Family::Alphabet(l) => 24u64.pow(l as u32),
         Family::Mutants => ctxd.mutants.len() as u64,
         Family::Hostile => ctxd.hostile.len() as u64,
+        Family::TwoDeep => ctxd.two_deep.len() as u64,
     }
 }
 
 struct FamilyData {
     mutants: Vec<Vec<u8>>,
     hostile: Vec<(String, Vec<u8>)>,
+    two_deep: Vec<(String, Vec<u8>)>,
 }
 
 fn family_data(tier: Tier) -> FamilyData {
@@ -398,7 +508,7 @@ fn family_data(tier: Tier) -> FamilyData {
     for s in seeds.iter().step_by(tier.pick(3, 1)) {
         mutants.extend(byte_mutants(s, &[0x00, 0x7f, 0x80, 0xff]));
     }
-    FamilyData { mutants, hostile: hostile_messages(tier) }
+    FamilyData { mutants, hostile: hostile_messages(tier), two_deep: two_deep_messages(tier) }
 }
 
 fn family_input(f: Family, i: u64, d: &FamilyData) -> (String, Vec<u8>) {
@@ -423,12 +533,13 @@ fn family_input(f: Family, i: u64, d: &FamilyData) -> (String, Vec<u8>) {
         }
         Family::Mutants => (String::new(), d.mutants[i as usize].clone()),
         Family::Hostile => d.hostile[i as usize].clone(),
+        Family::TwoDeep => d.two_deep[i as usize].clone(),
     }
 }
 
 fn families(tier: Tier) -> Vec<Family> {
     match tier {
-        Tier::Quick => vec![Family::AllBytes(0), Family::AllBytes(1), Family::AllBytes(2), Family::Alphabet(3), Family::Alphabet(4), Family::Mutants, Family::Hostile],
+        Tier::Quick => vec![Family::AllBytes(0), Family::AllBytes(1), Family::AllBytes(2), Family::Alphabet(3), Family::Alphabet(4), Family::Mutants, Family::Hostile, Family::TwoDeep],
         Tier::Thorough => vec![
             Family::AllBytes(0),
             Family::AllBytes(1),
@@ -438,6 +549,7 @@ fn families(tier: Tier) -> Vec<Family> {
             Family::Alphabet(5),
             Family::Mutants,
             Family::Hostile,
+            Family::TwoDeep,
         ],
     }
 }
@@ -450,6 +562,8 @@ fn targets_for(f: Family, tier: Tier, nt: usize) -> Vec<usize> {
     match f {
         Family::AllBytes(3) | Family::Alphabet(5) => vec![0, 5, 11, nt, nt + 3],
         Family::Alphabet(4) if tier == Tier::Quick => vec![6, 9, nt, nt + 2],
+        // the deep pairs go to the untyped targets and two recursive native ones
+        Family::TwoDeep => vec![8, 13, nt, nt + 1, nt + 4, nt + 5],
         _ => (0..nt + UNTYPED_TARGETS).collect(),
     }
 }
@@ -502,7 +616,7 @@ pub fn worker(args: &[String]) -> i32 {
                 // (the reference decoder recurses too: keep it off the small subject stack)
                 let huge = {
                     let probe = |b: &[u8]| matches!(wire::decode(b, &wire::Limits { max_nodes: 1_000_000, ..Default::default() }), Err(wire::WireErr::Budget));
-                    if f == Family::Hostile {
+                    if f == Family::Hostile || f == Family::TwoDeep {
                         let b = bytes.clone();
                         std::thread::Builder::new().stack_size(256 << 20).spawn(move || probe(&b)).unwrap().join().unwrap_or(true)
                     } else {
@@ -688,7 +802,7 @@ pub fn run(tier: Tier, replay: Option<&str>, rest: &[String]) -> i32 {
     let data = family_data(tier);
     for (fi, f) in fams.iter().enumerate() {
         // nesting and bombs additionally on small stacks
-        let stacks: Vec<usize> = if *f == Family::Hostile { vec![256, 1024, 8192] } else { vec![8192] };
+        let stacks: Vec<usize> = if *f == Family::Hostile || *f == Family::TwoDeep { vec![256, 1024, 8192] } else { vec![8192] };
         let total = family_size(*f, &data);
         for stack in stacks {
             let mut profiles: Vec<(&str, std::path::PathBuf)> = vec![("checked", exe.clone())];
@@ -761,7 +875,7 @@ pub fn run(tier: Tier, replay: Option<&str>, rest: &[String]) -> i32 {
     finish(
         &ctx,
         rep,
-        "inputs: all byte strings DIDL+s with |s|<=2 (thorough 3) over all 256 bytes and |s|<=4 (thorough 5) over a 24-byte alphabet of opcodes/counts/flags; every 1-byte deviation of valid messages of a small scope; hostile families (huge and over-long LEB128 counts at every count position of header and values, zero-sized element bombs up to 2^32-1 elements, vectors of every fixed-width element type and texts whose byte size count x width lies within 32 bytes of 2^63 and 2^64, recursive tables without progress, future-typed values with every small byte count against every shortfall of the remaining input, nesting depth 1..20000 of opt/vec/record/variant chains in the table and of recursive values) on 256 KiB / 1 MiB / 8 MiB stacks; each input x 20 native targets (incl. Vec of 2-, 4- and 8-byte numbers) + 4 untyped targets x 8-10 decoder configurations (quotas none/0/1/10/100/10000, skipping quota, full_error_message, max_type_len), in checked and release builds. Oracle: every call returns Ok or Err (a panic or a dead worker process is a violation, bisected to the input); under a decoding quota q peak allocation <= 4 MiB + 64*|input| + 64*q (counting global allocator); no progress while the worker consumes 20 s of CPU time is non-termination; checked and release agree on the outcome digest. Non-trivial = calls that returned Ok.",
+        "inputs: all byte strings DIDL+s with |s|<=2 (thorough 3) over all 256 bytes and |s|<=4 (thorough 5) over a 24-byte alphabet of opcodes/counts/flags; every 1-byte deviation of valid messages of a small scope; hostile families (huge and over-long LEB128 counts at every count position of header and values, zero-sized element bombs up to 2^32-1 elements, vectors of every fixed-width element type and texts whose byte size count x width lies within 32 bytes of 2^63 and 2^64, recursive tables without progress, future-typed values with every small byte count against every shortfall of the remaining input, nesting depth 1..20000 of opt/vec/record/variant chains in the table and of recursive values; wire-supplied strings that diagnostics quote - service method names (valid, typed by a non-function, duplicated, unsorted), method names of function values and text values - with a 2-, 3- or 4-byte character straddling every round byte offset 8..1024 at every alignment, also cut inside the character; two and three values of type T = opt T nested d1, d2 deep in one message, d1 sweeping 20..4200 and d2 = d1 - {0,1,2,4,8,16,32}, consumed as decode/decode, skip/decode, decode/skip) on 256 KiB / 1 MiB / 8 MiB stacks; each input x 20 native targets (incl. Vec of 2-, 4- and 8-byte numbers) + 6 untyped targets x 8-10 decoder configurations (quotas none/0/1/10/100/10000, skipping quota, full_error_message, max_type_len), in checked and release builds. Oracle: every call returns Ok or Err (a panic or a dead worker process is a violation, bisected to the input); under a decoding quota q peak allocation <= 4 MiB + 64*|input| + 64*q (counting global allocator); no progress while the worker consumes 20 s of CPU time is non-termination; checked and release agree on the outcome digest. Non-trivial = calls that returned Ok.",
         &["work proportional to the quota is decided through allocation and termination, not timing", "unmetered runs of explicit element bombs are restricted to 1000 elements"],
         json!({}),
     )
